@@ -408,6 +408,9 @@ class Interp:
         raise PyRaise("NameError", name)
 
     def external_module(self, full):
+        if full in self.externals:
+            # `from pkg.mod import fn` of a dependency: a contract-level summary registered under the dotted name
+            return BuiltinVal(full, self.externals[full])
         if full in ("autoray",):
             return ModuleVal("ar", getter=lambda nm: self._ext(f"ar.{nm}"))
         if full in self.bm.MODULES:
